@@ -2,6 +2,8 @@ import HpxVerif.Model.Proj
 import HpxVerif.Lemmas.ProjReal
 import HpxVerif.Lemmas.ProjReal5
 
+set_option autoImplicit false   -- an unknown identifier in a statement is an error, never a new variable
+
 /-!
 # C17 — HEALPix projection and de-projection are inverse, in range, base-cell exact
 
